@@ -12,7 +12,7 @@ current tree):
          "compile error: division by zero" counts as equal to a division_by_zero fault
 A leg-3 difference is a VIOLATION (shrunk to the smallest failing subtree; key
 `fold-differs:<op>:<types>`, `emit-abort:<op>:<types>`, `div0-rejected-but-not-evaluated:<op>`,
-`<op>:<int|long>_min/-1:constred`); a leg-1/leg-2 difference is a broken correspondence.
+`<op>:<int|long|enum>_min/-1:constred`); a leg-1/leg-2 difference is a broken correspondence.
 Excluded as C undefined behaviour (counted): out-of-range float->int, shift counts >= width.
 """
 LEVEL = "proof"
@@ -119,7 +119,7 @@ def key_of(prefix, tree):
     rk = ae.root_key(tree, promoted=True)
     if prefix == "trap":
         op = rk.split(":")[0]
-        wide = "long" if "long" in rk else "int"
+        wide = "enum" if "enum" in rk else ("long" if "long" in rk else "int")
         return "%s:%s_min/-1:constred" % (op, wide)
     if prefix == "div0-rejected-but-not-evaluated":
         return prefix + ":" + rk.split(":")[0]
